@@ -40,7 +40,7 @@ def flush (ds : DS) (dump : Option St) : IO DS := do
     let (h2, f2) := judgeExtra h1 ds.h op res dump
     let fs := f1 ++ f2
     for f in fs do
-      IO.println s!"FAIL {ds.h.hist} {h1.step} {op.getD 0 ""} | {f.props} | {f.clause} | {f.detail}"
+      IO.println s!"FAIL {ds.h.hist} {h1.step} {op.getD 0 ""} | {f.props} | {f.clause} | [fam={ds.h.fam} scalar={ds.h.scalar} kind={ds.h.kind} hint={ds.h.hint}] {f.detail}"
     let key := s!"{op.getD 0 ""}:{res.getD 0 ""}" ++
       (if op.getD 0 "" == "loc" || op.getD 0 "" == "loch" then "" else "")
     return { ds with h := h2, pendingOp := none, pendingRes := none, rd := {},
